@@ -38,8 +38,16 @@ Definition block_shape (b : bspec) (kids : list tree) : Prop :=
   | None => closes b 0 kids
   end.
 
+(* a leaf holds a comment item exactly when its class is Comment or Directive; Directive only for
+   directive-form (not in-line) comments, and only when the reader processes directives *)
+Definition leaf_ok (c : cls) (i : item) : Prop :=
+  match ikd i with
+  | IKComment => c = t_comment T \/ (c = t_directive T /\ idir i = true)
+  | _ => c <> t_comment T /\ c <> t_directive T
+  end.
+
 Inductive WN : tree -> Prop :=
-| WN_leaf c i inf : WN (TLeaf c i inf)
+| WN_leaf c i inf : leaf_ok c i -> WN (TLeaf c i inf)
 | WN_block c kids :
     Forall WN kids ->
     (forall b, c_kind (entry T c) = KBlock b \/ c_kind (entry T c) = KMain0 b -> block_shape b kids) ->
@@ -52,22 +60,23 @@ Hypothesis H_cpp_leaf : forall c, In c (t_cpp T) -> is_leaf T c.
 
 Lemma comment_shape s t s' : comment T s = (Val (Some t), s') -> WN t /\ tcls t = t_comment T.
 Proof.
-  unfold comment. destruct (get_item s) as [[i|] s1]; [destruct (ikd i)|]; intros H; inversion H; subst.
-  split; [constructor|reflexivity].
+  unfold comment. destruct (get_item s) as [[i|] s1]; [destruct (ikd i) eqn:K|]; intros H; inversion H; subst.
+  split; [constructor; unfold leaf_ok; rewrite K; now left|reflexivity].
 Qed.
 Lemma directive_shape s t s' : directive T s = (Val (Some t), s') -> WN t /\ tcls t = t_directive T.
 Proof.
-  unfold directive. destruct (get_item s) as [[i|] s1]; [destruct (ikd i); [|destruct (idir i)|]|];
-    intros H; inversion H; subst. split; [constructor|reflexivity].
+  unfold directive. destruct (get_item s) as [[i|] s1]; [destruct (ikd i) eqn:K; [|destruct (idir i) eqn:D|]|];
+    intros H; inversion H; subst. split; [constructor; unfold leaf_ok; rewrite K; right; auto|reflexivity].
 Qed.
-Lemma leaf_shape c s t s' : leaf L c s = (Val (Some t), s') -> WN t.
+Lemma leaf_shape c s t s' : c <> t_comment T -> c <> t_directive T ->
+  leaf L c s = (Val (Some t), s') -> WN t.
 Proof.
-  unfold leaf. destruct (get_item s) as [[i|] s1]; [|discriminate].
-  destruct (ikd i); try discriminate;
+  intros NC ND. unfold leaf. destruct (get_item s) as [[i|] s1]; [|discriminate].
+  destruct (ikd i) eqn:K; try discriminate;
   (destruct (cache_find (iid i) c (cache s1)) as [[inf|]|]; try discriminate;
-   [ intros H; inversion H; constructor
+   [ intros H; inversion H; constructor; unfold leaf_ok; rewrite K; auto
    | destruct (L i c (pcls s1)) as [|e|inf]; try discriminate;
-     [destruct e; discriminate | intros H; inversion H; constructor] ]).
+     [destruct e; discriminate | intros H; inversion H; constructor; unfold leaf_ok; rewrite K; auto] ]).
 Qed.
 
 Section WithRec.
@@ -376,8 +385,9 @@ Hypothesis HC : forall fuel, Contract T (new T L fuel).
 Theorem new_shape : forall fuel, ShapeC (new T L fuel).
 Proof.
   induction fuel as [|f IH]; intros c s t s'; cbn [new]; [discriminate|].
-  destruct (N.eqb c (t_comment T)); [intros H; apply (comment_shape _ _ _ H)|].
-  destruct (N.eqb c (t_directive T)); [intros H; apply (directive_shape _ _ _ H)|].
+  destruct (N.eqb c (t_comment T)) eqn:EC; [intros H; apply (comment_shape _ _ _ H)|].
+  destruct (N.eqb c (t_directive T)) eqn:ED; [intros H; apply (directive_shape _ _ _ H)|].
+  apply N.eqb_neq in EC. apply N.eqb_neq in ED.
   set (s1 := if mem c (pcls (tick s)) then tick s else set_pcls (pcls (tick s) ++ [c]) (tick s)).
   assert (FIN : forall (m : M (option (list tree))),
             (forall c' s2, m s1 = (Val (Some c'), s2) ->
@@ -400,7 +410,7 @@ Proof.
       + discriminate.
     - discriminate. }
   destruct (c_kind (entry T c)) as [| |b|b|cs|c'|] eqn:K.
-  - apply leaf_shape.
+  - apply leaf_shape; assumption.
   - apply FIN. unfold ret. discriminate.
   - apply FIN. intros c' s2 H.
     destruct (block_match_shape (new T L f) (HC f) IH b s1 c' s2 (H_nostart c b (or_introl K)) H) as [A B].
